@@ -62,6 +62,7 @@ class Sched:
         self.trace = []
         self.observer = None
         self.aborting = False
+        self.dead = False
         self.nsteps = 0
 
     # --- called from tasks
@@ -157,6 +158,7 @@ class Sched:
                 t.go.release()
                 self.ctl.acquire()
         self.cur = None
+        self.dead = True
 
 
 SCHED = None
@@ -168,13 +170,21 @@ def set_sched(s):
     return s
 
 
+def _inactive(s):
+    """Objects of a finished run may still be touched later (generator finalisers): then they do nothing."""
+    return s is None or s.dead or s is not SCHED or s.cur is None
+
+
 class RLock:
     def __init__(self):
         self.owner = None
         self.count = 0
+        self.sched = SCHED
 
     def acquire(self, blocking=True, timeout=-1):
-        s = SCHED
+        s = self.sched
+        if _inactive(s):
+            return True
         me = s.cur
         if me is None:           # set-up code outside the scheduler
             return True
@@ -188,7 +198,7 @@ class RLock:
         return True
 
     def release(self):
-        if SCHED.cur is None:
+        if _inactive(self.sched):
             return
         if SCHED.aborting:
             self.owner = None
@@ -234,6 +244,8 @@ class Condition:
 
     def wait(self, timeout=None):
         s = SCHED
+        if _inactive(self.lock.sched):
+            return True
         me = s.cur
         assert self.lock.owner is me
         saved = self.lock.count
@@ -251,6 +263,8 @@ class Condition:
         return True
 
     def wait_for(self, predicate, timeout=None):
+        if _inactive(self.lock.sched):
+            return predicate()
         result = predicate()
         while not result:
             self.wait(timeout)
